@@ -289,6 +289,33 @@ const SRCS: &[&str] = &[
 /// the rendered specification of a generated case
 fn gen_src(seed: u64) -> String { let mut rng = Lcg(seed); let d = gen_desc(&mut rng); render(&d) }
 
+/// A rule whose regex is one escape form: the specification is accepted and the rule lexes `text` as one lexeme (the
+/// written regex denotes that text).
+pub fn run_escape(re: &str, text: &str) -> Outcome {
+    use lrlex::{DefaultLexerTypes, LRNonStreamingLexerDef, LexerDef};
+    use lrpar::{Lexeme, NonStreamingLexer};
+    crate::note_case("c11_escape", json!({"re": re, "text": text}));
+    let src = format!("%%\n{} 'T'\n", re);
+    let expected = format!("accepted; {:?} lexes as one lexeme of {} byte(s)", text, text.len());
+    let t = text.to_string();
+    let r = std::panic::catch_unwind(std::panic::AssertUnwindSafe(move || {
+        match LRNonStreamingLexerDef::<DefaultLexerTypes<u32>>::from_str(&src) {
+            Err(es) => format!("refused: {}", es.iter().map(|e| e.to_string()).collect::<Vec<_>>().join("; ")),
+            Ok(mut d) => {
+                let mut m = std::collections::HashMap::new();
+                m.insert("T", 0u32);
+                let _ = d.set_rule_ids(&m);
+                let lx = d.lexer(&t);
+                let v: Vec<String> = lx.iter().map(|l| match l { Ok(l) => format!("({}, {})", l.span().start(), l.span().len()), Err(_) => "error".to_string() }).collect();
+                if v.len() == 1 && v[0] == format!("(0, {})", t.len()) { format!("accepted; {:?} lexes as one lexeme of {} byte(s)", t, t.len()) } else { format!("accepted; {:?} lexes as [{}] (regex in force: {})", t, v.join(", "), d.iter_rules().next().map(|r| r.re_str().to_string()).unwrap_or_default()) }
+            }
+        }
+    }));
+    let observed = match r { Ok(s) => s, Err(_) => "panic".to_string() };
+    Outcome { fails: observed != expected, observed, expected }
+}
+const ESCAPE_FORMS: &[(&str, &str)] = &[("\\x{61}", "a"), ("\\x{e9}", "é"), ("\\u{e9}", "é"), ("\\U{1F600}", "\u{1F600}"), ("[\\x{61}-\\x{63}]+", "abc"), ("\\x61", "a"), ("\\u00e9", "é"), ("\\U0001F600", "\u{1F600}"), ("\\xg", "xg")];
+
 pub fn search(tag: &str, tier: &str) -> Option<Value> {
     let want_header = tag.contains("whole_text");
     let mut other = None;
@@ -310,6 +337,10 @@ pub fn search(tag: &str, tier: &str) -> Option<Value> {
         }
     }
     if other.is_some() { return other; }
+    for (re, text) in ESCAPE_FORMS {
+        let o = run_escape(re, text);
+        if o.fails { return Some(witness("c11_escape", json!({"re": re, "text": text}), &o)); }
+    }
     for key in ["nest_limit", "size_limit", "dfa_size_limit"] {
         for n in [0u64, 1, 250, u32::MAX as u64 - 1, u32::MAX as u64, u32::MAX as u64 + 1, (u32::MAX as u64 + 1) * 3 + 7, u64::MAX - 1, u64::MAX] {
             let o = run_numflag(key, n);
